@@ -81,7 +81,7 @@ def run(ctx):
         # apache-avro interop uses schemas without logical types (its decimal/duration handling differs in what it accepts)
         h = cont.History(rng, schema_kw={"max_nodes": rng.choice([1, 4, 8]), "max_depth": 3, "logical": False})
         h.prepare()
-        ops, expected = cont.make_ops(rng, h, allow_fail=False, end="into_inner")
+        ops, expected = cont.make_ops(rng, h, allow_fail=(i % 3 == 0), end="into_inner")
         c = cont.CODECS[i % len(cont.CODECS)]
         meta = [(G.rand_str(rng, 6) or "k", G.rand_bytes(rng)) for _ in range(rng.choice([0, 0, 1, 3]))]
         meta = list({k: v for k, v in meta if not k.startswith("avro.")}.items())
